@@ -290,7 +290,7 @@ def run(ctx):
 
     # 2. one operator per behaviour
     for fine in ([False] if ctx.quick() else [False, True]):
-        cases = _gen(ctx, r, "Type2Feat.cfg", ctx.pick(1800, 12000), 2000,
+        cases = _gen(ctx, r, "Type2Feat.cfg", ctx.pick(1500, 12000), 2000,
                      "Type2 feature programs (%s)" % ("16.16" if fine else "integers"), fine=fine)
         ctx.sample({"feature_case": cases[0]})
         fails = r.replay(cases, "feature programs")
@@ -309,7 +309,7 @@ def run(ctx):
         ctx.notes.append("mix programs generated without the operators that failed on their own: %s" % excl)
     for fine in ([False] if ctx.quick() else [False, True]):
         # 16.16 numbers are confined to |v| <= 2000 (32-bit TLC integers): shorter operand lists stay in range
-        cases = _gen(ctx, r, "Type2Gen.cfg", ctx.pick(200, 1500), 4000,
+        cases = _gen(ctx, r, "Type2Gen.cfg", ctx.pick(160, 1500), 4000,
                      "Type2 mix programs (%s)" % ("16.16" if fine else "integers"), fine=fine, excluded=excl,
                      subs=[("MaxArgs = 48", "MaxArgs = 14"), ("MaxOps = 14", "MaxOps = 8")] if fine else ())
         ctx.sample({"mix_case": cases[0]})
